@@ -31,8 +31,8 @@ MECHANISMS = ["jaxley.modules.base:Module.record", "jaxley.modules.base:Module._
               "jaxley.modules.base:Module._data_external_input", "jaxley.integrate:add_stimuli", "jaxley.integrate:add_clamps",
               "jaxley.stimulus:step_current", "jaxley.stimulus:datapoint_to_step_currents", "jaxley.modules.base:Module.step"]
 MECHANISMS_REQUIRED = ["jaxley.modules.base:Module.record", "jaxley.modules.base:Module._external_input", "jaxley.modules.base:Module._get_external_input"]
-REQUIRED = {"quick": {"matrix_ref": 40, "charge_target": 15, "tmax": 30, "data_equiv": 30, "row_identity": 100, "clamp_hold": 12, "clamp_timing": 8},
-            "thorough": {"matrix_ref": 567, "charge_target": 140, "tmax": 567, "data_equiv": 660, "row_identity": 2412, "clamp_hold": 272, "clamp_timing": 90}}
+REQUIRED = {"quick": {"matrix_ref": 40, "charge_target": 15, "tmax": 30, "data_equiv": 30, "row_identity": 100, "clamp_hold": 12, "clamp_timing": 8, "geom_route": 25},
+            "thorough": {"matrix_ref": 567, "charge_target": 140, "tmax": 567, "data_equiv": 660, "row_identity": 2412, "clamp_hold": 272, "clamp_timing": 90, "geom_route": 300}}
 BACKENDS = ["jaxley.stone", "jaxley.thomas", "jax.sparse"]
 SYN = ["IonotropicSynapse", "TestSynapse", "TanhRateSynapse"]
 
@@ -266,6 +266,36 @@ def _passive(case, rec):
                                  voltage_solver=case["backend"], where="stimulate + data_stimulate"))
         rec.check("data_equiv", o4.shape == out.shape and np.max(np.abs(o4 - want)) / scale <= 1e-8, what="static + data-fed stimuli together differ from the reference",
                   max_dev=float(np.max(np.abs(o4 - want))) if o4.shape == out.shape else None, **tag)
+    except Refused:
+        pass
+    # "whatever its geometry" includes geometry that only arrives at integrate time: radius of the stimulated compartments as a
+    # trainable with changed values (params=...), length through data_set (param_state=...); the tables keep the old geometry
+    stim_rows = sorted({int(r) for s in case["stims"] for r in s["rows"]})
+    try:
+        m.delete_trainables()
+        m.select(nodes=np.asarray(stim_rows)).make_trainable("radius", verbose=False)
+        params = [{k2: v2 * 1.7 for k2, v2 in q.items()} for q in m.get_parameters()]
+        half = stim_rows[: max(1, len(stim_rows) // 2)]
+        new_len = float(np.asarray(p["length"], dtype=float)[half[0]] * 0.6)  # data_set takes one scalar for the whole view
+        pst = m.select(nodes=np.asarray(half)).data_set("length", new_len, None)
+        o5 = np.asarray(rec.call("geom_route", jx.integrate, m, params=params, param_state=pst, delta_t=dt, solver=case["solver"],
+                                 voltage_solver=case["backend"], where="integrate with run-time geometry"))
+        rad2, len2 = np.asarray(p["radius"], dtype=float).copy(), np.asarray(p["length"], dtype=float).copy()
+        rad2[stim_rows] *= 1.7
+        len2[half] = new_len
+        v = np.asarray(p["v"], dtype=float)
+        r5 = [v.copy()]
+        for k in range(T):
+            v = cable.step(st["cells"], rad2, len2, p["ra"], p["cm"], v, dt, case["solver"], None, None, inj[k])
+            r5.append(v.copy())
+        r5 = np.asarray(r5).T[np.asarray(want_rows)]
+        e5 = np.abs(o5 - r5) / (1 + np.max(np.abs(r5))) if o5.shape == r5.shape else np.ones((1, 1))
+        b5 = np.unravel_index(np.argmax(e5), e5.shape)
+        rec.check("geom_route", o5.shape == r5.shape and np.all(np.isfinite(o5)) and e5.max() <= 1e-8,
+                  what="stimulus with the geometry of its target supplied at integrate time (trainable radius, data_set length): "
+                       "recorded matrix differs from the reference with that geometry", row=int(b5[0]), col=int(b5[1]),
+                  got=o5[b5[0]].tolist()[:9] if o5.shape == r5.shape else None, want=r5[b5[0]].tolist()[:9], stim_rows=stim_rows, data_set_rows=half, **tag)
+        m.delete_trainables()
     except Refused:
         pass
 
